@@ -1,7 +1,7 @@
 //! Relational oracles: C02, C03, C05, C06, C09, C10, C11, and the multi-line literal value model.
 use crate::cfg::{BeginStyle, Cfg, Le};
 use crate::grammar::{GTok, M_A, M_B, M_C, M_D, M_I, M_K, M_O, M_S, M_T, M_Y};
-use crate::oracles::{case_fmt, verbatim_mask};
+use crate::oracles::{case_fmt, verbatim_mask, verbatim_mask_definite};
 use crate::refscan::{self as r, CommentKind, Kind, TextKind, Tok};
 use crate::runner::Ctx;
 use serde_json::json;
@@ -169,7 +169,7 @@ pub fn c02(x: &str, out: &str, cfg: &Cfg, ctx: &mut Ctx) -> bool {
         );
         return false;
     }
-    let mask = verbatim_mask(x, &tx);
+    let mask = verbatim_mask_definite(x, &tx);
     for i in 0..tx.len() {
         let (a, b) = (&tx[i], &to[i]);
         let kinds_equal = a.kind == b.kind
@@ -405,21 +405,41 @@ pub fn c05(x: &str, toks: &[GTok], out: &str, cfg: &Cfg, ctx: &mut Ctx) {
     let mut last_decl: Option<String> = None;
     // inside the header of a control statement (between its first token and then/do/of)?
     let mut header_depth = 0u32;
-    let mut anon_in_header = false;
+    // 0: none, 1: inside a statement header / raise, 2: inside the initialiser of a declaration
+    let mut anon_in_header = 0u8;
+    let mut decl_active = false;
     let mut raise_active = false;
     // a comment (not an inline block comment) right after `class` / `interface` ... and before the
     // ancestor list: the header is then not recognised (known finding)
     let comment_in_type_header = (1..tx.len().saturating_sub(1)).any(|i| {
         commentish(&tx[i])
             && tx[i].kind != Kind::Comment(CommentKind::InlineBlock)
-            && matches!(tx[i - 1].text(x).to_ascii_lowercase().as_str(), "class" | "interface" | "dispinterface" | "object" | "record")
-            && tx[i + 1].text(x) == "("
+            && matches!(tx[i - 1].text(x).to_ascii_lowercase().as_str(), "class" | "interface" | "dispinterface" | "object" | "record" | "helper")
+            && (tx[i + 1].text(x) == "(" || tx[i + 1].text(x).eq_ignore_ascii_case("for") || tx[i + 1].text(x).eq_ignore_ascii_case("of") || tx[i + 1].text(x) == ";")
     });
-    let fail = |ctx: &mut Ctx, sig: &str, detail: String, anon_in_header: bool| {
-        let sig = if comment_in_type_header {
+    // a break-forcing comment (anything but a one-line block comment kept inline) right after the
+    // `of object` of a procedural type: the optimiser finds no layout at all (known finding)
+    let comment_after_of_object = (2..tx.len()).any(|i| {
+        commentish(&tx[i])
+            && (tx[i].kind != Kind::Comment(CommentKind::InlineBlock) || tx[i].text(x).contains('\n'))
+            && tx[i - 1].text(x).eq_ignore_ascii_case("object")
+            && tx[i - 2].text(x).eq_ignore_ascii_case("of")
+    });
+    // an attribute directly after `helper for T`: `T [Attr]` is read as an indexed name
+    let attribute_after_helper_for = (3..tx.len()).any(|i| {
+        tx[i].text(x) == "[" && tx[i - 1].kind == Kind::Identifier && tx[i - 2].text(x).eq_ignore_ascii_case("for") && tx[i - 3].text(x).eq_ignore_ascii_case("helper")
+    });
+    let fail = |ctx: &mut Ctx, sig: &str, detail: String, anon_in_header: u8| {
+        let sig = if sig == "declaration-placement" && comment_after_of_object {
+            format!("{sig}:break-forcing-comment-after-of-object")
+        } else if sig == "declaration-placement" && attribute_after_helper_for {
+            format!("{sig}:attribute-directly-after-helper-for-type")
+        } else if comment_in_type_header {
             format!("{sig}:comment-between-class-keyword-and-ancestor-list")
-        } else if anon_in_header {
+        } else if anon_in_header == 1 {
             format!("{sig}:anonymous-routine-inside-statement-header-or-raise")
+        } else if anon_in_header == 2 {
+            format!("{sig}:anonymous-routine-in-the-initialiser-of-a-declaration")
         } else {
             sig.to_string()
         };
@@ -432,13 +452,22 @@ pub fn c05(x: &str, toks: &[GTok], out: &str, cfg: &Cfg, ctx: &mut Ctx) {
         if header_depth > 0 && matches!(g.text.as_str(), "then" | "do" | "of") {
             header_depth -= 1;
         }
-        if g.text == "raise" {
+        if g.text == "raise" || (g.text == "until" && g.marks & M_C != 0) {
+            // (an `until` condition is a statement header as well)
             raise_active = true;
         } else if g.marks & M_S != 0 {
             raise_active = false;
         }
+        if g.marks & M_D != 0 {
+            decl_active = true;
+        } else if g.marks & M_S != 0 {
+            decl_active = false;
+        }
+        if g.marks & M_A != 0 && decl_active && anon_in_header == 0 {
+            anon_in_header = 2;
+        }
         if g.marks & M_A != 0 && (header_depth > 0 || raise_active) {
-            anon_in_header = true;
+            anon_in_header = 1;
         }
         if g.marks & M_C != 0 {
             if let Some(top) = ostack.pop() {
@@ -497,7 +526,10 @@ pub fn c05(x: &str, toks: &[GTok], out: &str, cfg: &Cfg, ctx: &mut Ctx) {
             if let (Some(Some(k)), Some(ind)) = (kstack.last().cloned(), ind.clone()) {
                 checked += 1;
                 if !first || ind != k {
-                    fail(ctx, "begin-placement", format!("{}: first_on_line={first}, indentation {ind:?}, controlling statement {k:?}; output {out:?}", what("begin")), anon_in_header);
+                    // a comment between then/do/else and the `begin` makes the block a child line of
+                    // the controlling statement, one level deeper (known finding)
+                    let after_comment = keep[i] > 0 && commentish(&tx[keep[i] - 1]);
+                    fail(ctx, if after_comment { "begin-placement:comment-between-controlling-statement-and-begin" } else { "begin-placement" }, format!("{}: first_on_line={first}, indentation {ind:?}, controlling statement {k:?}; output {out:?}", what("begin")), anon_in_header);
                     return;
                 }
             }
@@ -521,8 +553,9 @@ pub fn c05(x: &str, toks: &[GTok], out: &str, cfg: &Cfg, ctx: &mut Ctx) {
             } else if g.marks & M_T != 0 {
                 // the block of a type declaration hangs off the line that starts the declaration
                 ostack.push(last_decl.clone());
-            } else if g.marks & M_B != 0 {
-                // a control-flow body hangs off the controlling statement's line
+            } else if g.marks & M_B != 0 && !first {
+                // a control-flow body whose `begin` ends the (possibly wrapped) header hangs off the
+                // controlling statement's line; a `begin` that starts a line opens the block itself
                 ostack.push(kstack.last().cloned().unwrap_or(None).or(ind.clone()));
             } else {
                 ostack.push(ind.clone());
